@@ -217,19 +217,23 @@ def run(ctx):
         # placement of the function under test in the compilation units (front/tailrec.c never_tailrec walks
         # the main file, its `use`d modules and their imports): plain file / a file with a `use` clause /
         # inside a module that itself imports a module
-        p.layout = ("plain", "use", "module")[i % 3]
+        p.layout = ("plain", "use", "module", "module-first-of-two-uses", "module-last-of-two-uses")[i % 5]
         if p.layout == "use":
             p.src = "use ctaux\n\n" + p.src
-        elif p.layout == "module":
+        elif p.layout.startswith("module"):
             mod = "ctm" + "".join(chr(ord("a") + int(c)) for c in "%04d" % i)
             body = p.src.replace("func main(n : int, w : int) -> int", "func entry(n : int, w : int) -> int")
             with open(os.path.join(tools.tmp, mod + ".nev"), "w") as f:
                 f.write("module %s {\nuse ctaux\n\n%s\n}\n" % (mod, body))
             p.module_src = body
-            p.src = "use %s\n\nfunc main(n : int, w : int) -> int\n{\n    %s.entry(n, w)\n}\n" % (mod, mod)
+            uses = {"module": "use %s\n" % mod, "module-first-of-two-uses": "use %s\nuse ctother\n" % mod,
+                    "module-last-of-two-uses": "use ctother\nuse %s\n" % mod}[p.layout]
+            p.src = "%s\nfunc main(n : int, w : int) -> int\n{\n    %s.entry(n, w)\n}\n" % (uses, mod)
         with open(p.path, "w") as f:
             f.write(p.src)
         p.shape_list = p.shapes()
+    with open(os.path.join(tools.tmp, "ctother.nev"), "w") as f:
+        f.write("module ctother {\n    func twice(x : int) -> int { x + x }\n}\n")
     with open(os.path.join(tools.tmp, "ctaux.nev"), "w") as f:
         f.write("module ctaux {\n    func step(x : int) -> int { x + 1 }\n}\n")
 
